@@ -175,11 +175,11 @@ def unit_gen_cache(clsname):
                 bad = post(ni, m1, g1, n1)
                 ctx.holds("%s: after a call with (%s molecule, %s grids object, %s spin count) following a call with nspin=%d, every generator is the one for the current molecule / grid / spin count"
                           % (clsname, "the same" if same_mol else "another", "the same" if same_grids else "another", "the same" if same_spin else "another", nsp0),
-                          not bad, "; ".join(bad), fq, replay=replay_gen_cache(clsname))
+                          not bad, "; ".join(bad), fq, replay=replay_gen_cache(clsname, (same_mol, same_grids, same_spin, nsp0)))
     return run
 
 
-def replay_gen_cache(clsname):
+def replay_gen_cache(clsname, scenario=None):
     def replay(wit):
         from pyvc import native
         native.install_shim()
@@ -210,23 +210,36 @@ def replay_gen_cache(clsname):
         ni.nldfgen, ni.sdmxgen, ni.mol, ni.nldf_init, ni.sdmx_init = None, None, None, Init(), Init()
         N.SemilocalPlan = lambda *a: None
         N.FracLaplPlan = lambda *a: None
-        m0, m1 = object(), object()
+        same_mol, same_grids, same_spin, nsp0 = scenario if scenario is not None else (False, True, True, 1)
+        m0 = object()
+        m1 = m0 if same_mol else object()
         gr = type("Gr", (), {})()
         gr.grids_indexer, gr.coords = "ix0", "coords0"
         try:
-            ni.initialize_feature_generators(m0, gr, 1)
+            ni.initialize_feature_generators(m0, gr, nsp0)
         except Exception as e:
             return {"reproduced": True, "first_call_raises": "%s: %s" % (type(e).__name__, e), "ni.settings": repr(ni.settings)}
-        gr.grids_indexer, gr.coords = "ix1", "coords1"
-        ni.initialize_feature_generators(m1, gr, 1)
+        if not same_grids:
+            gr = type("Gr", (), {})()
+        if not (same_mol and same_grids):
+            # the grids handed in with a molecule were built for it
+            gr.grids_indexer, gr.coords = "ix1", "coords1"
+        n1 = nsp0 if same_spin else 3 - nsp0
+        ni.initialize_feature_generators(m1, gr, n1)
         stale = []
-        if getattr(ni, "nldfgen", None) is not None and getattr(ni.nldfgen, "coords", None) != "coords1":
-            stale.append("nldfgen.interpolator coordinates: %r" % (getattr(ni.nldfgen, "coords", None),))
-        if getattr(ni, "nldfgen", None) is not None and ni.nldfgen.tag[0] is not m1:
-            stale.append("nldfgen")
+        g = getattr(ni, "nldfgen", None)
+        if g is not None and getattr(g, "coords", None) != gr.coords:
+            stale.append("nldfgen.interpolator coordinates: %r" % (getattr(g, "coords", None),))
+        if g is not None and (g.tag[0] is not m1 or g.tag[1] != gr.grids_indexer):
+            stale.append("nldfgen built for another molecule / indexer")
+        if g is not None and g.tag[2] != n1:
+            stale.append("nldfgen built for nspin=%s" % g.tag[2])
         if ni.sdmxgen is not None and ni.sdmxgen.tag[0] is not m1:
-            stale.append("sdmxgen")
-        return {"reproduced": bool(stale), "stale_generators_after_second_molecule_on_the_same_grids_object": stale}
+            stale.append("sdmxgen built for another molecule")
+        if ni.sdmxgen is not None and ni.sdmxgen.tag[1] != n1:
+            stale.append("sdmxgen built for nspin=%s" % ni.sdmxgen.tag[1])
+        return {"reproduced": bool(stale), "history": "call(nspin=%d) then call(%s molecule, %s grids object, nspin=%d)" % (nsp0, "same" if same_mol else "another", "same" if same_grids else "another", n1),
+                "stale_generators": stale}
     return replay
 
 
